@@ -182,7 +182,7 @@ func (g *worldGen) serve(h int, name string, fields map[string]any) string {
 }
 
 func (g *worldGen) redirect(h int, name string, to string) string {
-	resp := "HTTP/1.0 302 Found\r\nLocation: " + to + "\r\n\r\n"
+	resp := pick(g.r, []string{"HTTP/1.0 302 Found", "HTTP/1.0 301 Moved", "HTTP/1.0 303 See Other", "HTTP/1.0 307 Temporary Redirect", "HTTP/1.1 308 Permanent Redirect"}) + "\r\nLocation: " + to + "\r\n\r\n"
 	g.routes = append(g.routes, map[string]any{"h": h, "path": "/{OP}/" + g.seg(name), "resp": resp, "fault": ""})
 	return g.url(h, name)
 }
@@ -199,8 +199,11 @@ func (g *worldGen) embed(h int, fields map[string]any) map[string]any {
 	return out
 }
 
-/* objects nested inside an embedded copy are served by the embedding host too: a deep copy in
-   which every stamped object carries that host's stamp */
+/*
+objects nested inside an embedded copy are served by the embedding host too: a deep copy in
+
+	which every stamped object carries that host's stamp
+*/
 func (g *worldGen) restamp(v any, h int) any {
 	switch t := v.(type) {
 	case map[string]any:
@@ -268,7 +271,11 @@ func genPubWorld(r *rand.Rand, n int, emit func(Op)) {
 		forgedAliceURL := g.serve(evil, "forged-alice", map[string]any{"type": "Person", "id": alice["id"]})
 		_ = forgedAliceURL
 		author := func(h int) any {
-			switch weighted(r, 6, 2, 1, 1, 1) {
+			switch weighted(r, 6, 2, 1, 1, 1, 1) {
+			case 5:
+				/* a URL on alice's own host that redirects to the attacker's document claiming her id */
+				g.n++
+				return g.redirect(home, fmt.Sprintf("moved%d", g.n), forgedAliceURL)
 			case 4:
 				/* a stub pointing at the attacker's own URL, whose document claims alice's id */
 				return map[string]any{"id": forgedAliceURL, "type": "Person"}
@@ -424,7 +431,13 @@ func genPubWorld(r *rand.Rand, n int, emit func(Op)) {
 			page2ref = ref
 		}
 		outboxPage1 := map[string]any{"type": "OrderedCollectionPage", "orderedItems": acts[:len(acts)/2], "next": page2ref}
-		outboxFields := map[string]any{"type": "OrderedCollection", "id": g.url(home, "outbox"), "totalItems": len(acts), "first": outboxPage1}
+		var firstRef any = outboxPage1
+		if _, embedded := page2ref.(map[string]any); embedded && r.Intn(5) == 0 {
+			/* both pages named by URL, and the two URLs differ in letter case only */
+			p2 := g.serve(home, "pga", map[string]any{"type": "OrderedCollectionPage", "id": g.url(home, "pga"), "orderedItems": acts[len(acts)/2:]})
+			firstRef = g.serve(home, "pgA", map[string]any{"type": "OrderedCollectionPage", "id": g.url(home, "pgA"), "orderedItems": acts[:len(acts)/2], "next": p2})
+		}
+		outboxFields := map[string]any{"type": "OrderedCollection", "id": g.url(home, "outbox"), "totalItems": len(acts), "first": firstRef}
 		outboxURL := g.serve(home, "outbox", outboxFields)
 		alice["outbox"] = outboxURL
 		if r.Intn(4) == 0 {
